@@ -108,6 +108,11 @@ fn cells() -> Vec<Cell> {
     for len in [0usize, 1, 16, 255] {
         send(&format!("SendData[{}]", len), RefMsg::Data { offset: 16, data: vec![0x5A; len] }, true);
     }
+    // the pause does not depend on WHERE the chunk goes or how much it carries: the ends of the offset range, chunks that
+    // end at or run past 0xFFFF, offsets at the 2^8 / 2^15 marks, offsets that are not a multiple of 16
+    for (offset, len) in [(0xFFF0u16, 16usize), (0xFFFF, 1), (0xFFFF, 0), (0xFF01, 255), (0xFFEF, 16), (0xFFF1, 16), (0xFF00, 255), (0x8000, 16), (0x7FFF, 2), (0x00FF, 1), (0x0100, 255), (0x0000, 0), (0x0000, 255), (0x0003, 16)] {
+        send(&format!("SendData[{}]@{:04X}", len, offset), RefMsg::Data { offset, data: vec![0xA5; len] }, true);
+    }
     send("DataChunksSent", RefMsg::Count(3), false);
     send("Hello", RefMsg::Hello(3), false);
     send("QueryState", RefMsg::Query(3), false);
@@ -583,7 +588,7 @@ pub fn run(ctx: &Ctx) -> Outcome {
     }
     let n_send_unpaced = all.iter().filter(|c| !c.send_paced).count() as u64;
     let floors = vec![
-        floor("paced send trials (data chunks of 4 lengths)", report.get("paced_send_trials") >= 4 * trials as u64, report.get("paced_send_trials")),
+        floor("paced send trials (data chunks of 4 lengths; 14 further (offset, length) pairs at the ends of the offset range and past 0xFFFF)", report.get("paced_send_trials") >= 18 * trials as u64, report.get("paced_send_trials")),
         floor("paced receive trials (8 request kinds x 2 in-progress states x own/foreign)", report.get("paced_recv_trials") >= 32 * trials as u64, report.get("paced_recv_trials")),
         floor("data chunk followed by a failing flush (3 error kinds)", report.get("flush_fault_trials") >= 9, report.get("flush_fault_trials")),
         floor("sessions: paced chunks, paced replies and unpaced pairs all observed mid-session", report.get("session_paced_chunks") >= 50 && report.get("session_paced_replies") >= 20 && report.get("session_pairs_judged") >= 10, format!("{} chunks, {} replies, {} pairs", report.get("session_paced_chunks"), report.get("session_paced_replies"), report.get("session_pairs_judged"))),
